@@ -217,10 +217,20 @@ fn history<F: Family>(input: &Input, ctx: &mut Ctx) -> CaseResult {
     let n = 2 + t.pick(5);
     let mut abandoned = 0;
     let mut after_abandon = false;
+    let mut prev: Option<F::Packet> = None;
     for i in 0..n {
         let cfg = if t.chance(1, 8) { crate::gen::GenCfg::MEDIUM } else { crate::gen::GenCfg::SMALL };
         // PUBLISH more often: it is the hot path of real users
-        let p = if t.flag() { F::gen_of_type(&mut t, &cfg, 2) } else { F::gen(&mut t, &cfg) }.map_err(|e| Violation::new(e.0))?;
+        let mut p = if t.flag() { F::gen_of_type(&mut t, &cfg, 2) } else { F::gen(&mut t, &cfg) }.map_err(|e| Violation::new(e.0))?;
+        // one time in three the packet is *derived* from the previous one (a clone that shares its allocations, with one
+        // thing changed): the next delivery of the same message to another subscriber, a retransmission, ...
+        if let (Some(q), true) = (&prev, t.chance(1, 3)) {
+            if let Some(d) = F::derive(q, &mut t) {
+                p = d;
+                ctx.label("derived-from-previous-packet");
+            }
+        }
+        prev = Some(p.clone());
         let enc = match F::encode(&p) {
             Ok(b) => b.as_ref().to_vec(),
             Err(e) => viol!("encode of a valid packet failed: {:?}", e),
